@@ -39,9 +39,8 @@ def run(pid, tier, seed, replay):
     fam = [gen.family_member(rng, nstates=3, dense=0.0, nested=False, validators=True,
                              ntrans=rng.randint(1, 3)) for _ in range(5 if quick else 40)]
     consts = {"NI": 1, "MaxCalls": 2 if quick else 3, "MaxFails": 1, "MaxActs": 0}
-    ec.mc_run(chk, fam, consts, required=("MCSelect", "MCGuardFail", "MCAssign", "MCUnwind"),
-              label="selection family")
-    hs = ec.hist_scenarios(chk, fam, consts, limit=1500 if quick else 20000)
+    _cov, hs = ec.mc_run(chk, fam, consts, required=("MCSelect", "MCGuardFail", "MCAssign", "MCUnwind"),
+              label="selection family", hist_limit=1500 if quick else 20000)
     ec.run_validate(chk, hs, "spec-behaviour replay", shards=4 if quick else 12)
     ec.run_validate(chk, scenarios(rng, 1500 if quick else 30000, coro=0.5), "random selection scenarios",
                     shards=4 if quick else 12)
